@@ -122,6 +122,7 @@ pub mod c01_score;
 pub mod c02_scanner;
 pub mod c04_stripe;
 pub mod c05_encode;
+pub mod c06_memory;
 pub mod c07_max;
 pub mod c08_discrete;
 pub mod c09_convert;
